@@ -25,7 +25,7 @@ impl Deserialize for ExUnitPrices {
                 (|| -> Result<_, DeserializeError> { Ok(SubCoin::deserialize(raw)?) })()
                     .map_err(|e| e.annotate("step_price"))?;
             match len {
-                cbor_event::Len::Len(_) => (),
+                cbor_event::Len::Len(_) => read_len.finish()?,
                 cbor_event::Len::Indefinite => match raw.special()? {
                     CBORSpecial::Break => (),
                     _ => return Err(DeserializeFailure::EndingBreakMissing.into()),
